@@ -43,6 +43,10 @@ type Fault struct {
 	// Short > 0: a write stores only its first Short bytes, then fails.
 	// Otherwise the operation fails without any effect.
 	Short int
+	// Sticky > 0: the fault persists — the next Sticky operations of the same kind (write,
+	// rename, sync, …) fail too, without effect (a full disk or a failing device does not
+	// recover between two attempts; this is what reaches retry paths).
+	Sticky int
 }
 
 // ErrInjected is the error returned by faulted operations (wraps ENOSPC).
@@ -52,6 +56,7 @@ type session struct {
 	root   string
 	ops    []Op
 	faults map[int]Fault
+	sticky map[string]int // kind -> number of further operations of that kind that fail
 	// counts of faults actually injected
 	injected int
 }
@@ -74,6 +79,7 @@ func SetFaults(faults map[int]Fault) {
 	mu.Lock()
 	defer mu.Unlock()
 	if cur != nil {
+		cur.sticky = nil
 		cur.faults = faults
 	}
 }
@@ -128,9 +134,19 @@ func begin(op Op) (idx int, f Fault, faulted bool) {
 	idx = len(cur.ops)
 	cur.ops = append(cur.ops, op)
 	f, faulted = cur.faults[idx]
+	if !faulted && cur.sticky[op.Kind] > 0 {
+		cur.sticky[op.Kind]--
+		f, faulted = Fault{}, true
+	}
 	if faulted {
 		cur.injected++
 		cur.ops[idx].Failed = true
+		if f.Sticky > 0 {
+			if cur.sticky == nil {
+				cur.sticky = map[string]int{}
+			}
+			cur.sticky[op.Kind] = f.Sticky
+		}
 	}
 	return
 }
